@@ -22,7 +22,7 @@ SEQ = {
             [('reent', 4, R), ('subjects', 4, R), ('conn', 4, R), ('endless', 3, F), ('single1', 4, F), ('single2', 4, F), ('single3', 4, R), ('errops', 4, F), ('multi', 4, R)], '6 C07'),
     'C10': (['C10'], [('subjects', 4, R), ('subjects3', 6, R)], [('subjects', 5, R), ('subjects3', 8, R)], '6 C10'),
     'C13': (['C13'], [('conn', 4, R), ('conn3', 6, R)], [('conn', 6, R), ('conn3', 8, R)], '6 C13'),
-    'C14': (['REF', 'TAP'], [('c14', 2, F), ('c14hot', 4, F), ('c14multi', 6, F)], [('c14', 3, F), ('c14hot', 5, F), ('c14multi', 7, F)], '6 C14'),
+    'C14': (['REF', 'TAP'], [('c14', 2, F), ('c14hot', 4, F), ('c14multi', 6, F), ('subjects3', 5, F)], [('c14', 3, F), ('c14hot', 5, F), ('c14multi', 7, F), ('subjects3', 6, F)], '6 C14'),
     'C17': (['C17'], [('single1', 3, F), ('single2', 3, F), ('single3', 3, F), ('errops', 3, F), ('multi', 3, R), ('direct', 3, F), ('subjects', 3, R), ('flatdeep', 7, F)],
             [('single1', 4, F), ('single2', 4, F), ('single3', 4, R), ('errops', 4, F), ('multi', 4, R), ('direct', 4, F), ('subjects', 4, R), ('depth2', 4, F)], '6 C17'),
 }
